@@ -76,6 +76,10 @@ func (withdrawTx) Validate(ctx *action.Context, signedTx action.SignedTx) (bool,
 	if currency.Name != withdraw.WithdrawAmount.Currency {
 		return false, errors.Wrap(action.ErrInvalidAmount, withdraw.WithdrawAmount.String())
 	}
+	// the amount counts whole OLT and is converted through an int64: it must not be negative and must fit
+	if !withdraw.WithdrawAmount.IsValid(ctx.Currencies) || !withdraw.WithdrawAmount.Value.BigInt().IsInt64() {
+		return false, errors.Wrap(action.ErrInvalidAmount, withdraw.WithdrawAmount.String())
+	}
 	err = withdraw.ValidatorAddress.Err()
 	if err != nil {
 		return false, errors.Wrap(action.ErrInvalidAddress, err.Error())
